@@ -458,10 +458,23 @@ func cliCase(o *kit.Out, r *kit.Rand, idx int) {
 				}
 			}
 		})
-		_, _ = kit.Guard(func() {
-			_ = other.ExecuteWithArgs([]string{"run", "constant", name + "gen", "-r", "4/10ms", "-d", "60ms", "-c", "2",
-				"--max-failures", "1000", "--max-failures-rate", "100", "--ignore-dropped"})
-		})
+		if idx%4 == 1 {
+			// ... on the very same instance and command: its options were that execution's
+			was := f
+			f = n / 2
+			_, _ = kit.Guard(func() {
+				_ = inst.ExecuteWithArgs([]string{"run", "users", name, "-c", "1", "-d", "5s", "--max-iterations", kit.I(n),
+					"--max-failures", "1000", "--max-failures-rate", "100", "--ignore-dropped"})
+			})
+			f = was
+			started.Store(0)
+			o.Count("cli", "tolerance options omitted after an execution of the same instance that was given generous ones")
+		} else {
+			_, _ = kit.Guard(func() {
+				_ = other.ExecuteWithArgs([]string{"run", "constant", name + "gen", "-r", "4/10ms", "-d", "60ms", "-c", "2",
+					"--max-failures", "1000", "--max-failures-rate", "100", "--ignore-dropped"})
+			})
+		}
 		o.Count("cli", "tolerance options omitted after a run that was given generous ones")
 	}
 	if r.Chance(30) && !setupFails && teardownHow == 0 {
